@@ -86,6 +86,17 @@ class World:
             def startModule(self, start_events):
                 log(self.name, 'start')
                 super().startModule(start_events)
+                own = self.opt.get('own_start')
+                if own:
+                    # start-up work of the module's own thread, granted its own time-out (longer or shorter than the default)
+                    grant, takes = own
+                    trigger = start_events.get_trigger(grant)
+
+                    def work():
+                        D.vsleep(takes)
+                        log(self.name, 'own-start-done')
+                        trigger()
+                    D.CoThread(target=work, name=f'own-start-{self.name}').start()
 
             def shutdownModule(self):
                 log(self.name, 'shutdown')
@@ -218,6 +229,8 @@ class World:
             scen['shared_io'] = rng.choice([2, 3])
         elif q < 0.35:
             scen['pinata'] = True
+        if rng.random() < 0.15:
+            rng.choice(mods)['own_start'] = rng.choice([[90, 60], [90, 20], [40, 100], [5, 20]])
         if rng.random() < 0.2:
             scen['io_chain'] = {'leaves': rng.choice([1, 2]), 'write': rng.random() < 0.5,
                                 'order': [[rng.randrange(4), rng.random()] for _ in range(4)]}
@@ -246,7 +259,7 @@ class World:
         classes = {'M': self.M, 'NoPoll': self.NoPoll, 'Typed': self.Typed}
         for m in scen['mods']:
             cls = classes[m.get('cls', 'M')]
-            sub = type(cls.__name__ + '_' + m['name'], (cls,), {'opt': {k: m.get(k) for k in ('use', 'fail', 'read_takes', 'read_fails', 'shutdown_takes')}, '__module__': __name__})
+            sub = type(cls.__name__ + '_' + m['name'], (cls,), {'opt': {k: m.get(k) for k in ('use', 'fail', 'read_takes', 'read_fails', 'shutdown_takes', 'own_start')}, '__module__': __name__})
             c = {'cls': sub, 'description': m['name']}
             for slot in ('a1', 'a2'):
                 if m.get(slot):
@@ -376,7 +389,9 @@ class World:
                 self.LOG.append((len(self.LOG), s.now, 'node', 'shutdown-done'))
         if scen.get('strategy'):        # schedule-directed scenarios carry their strategy (replayable)
             strategy, seed = tuple(scen['strategy']), scen['sched_seed']
-        s = D.Sched(strategy, seed, horizon=400, grace=10, max_steps=400000)
+        # (threads of the harness that sleep beyond the end of the run move the clock: everything gets the time to end)
+        grace = 10 + max([m['own_start'][1] for m in scen['mods'] if m.get('own_start')] or [0]) + max([m.get('read_takes') or 0 for m in scen['mods']] or [0])
+        s = D.Sched(strategy, seed, horizon=400 + grace, grace=grace, max_steps=400000)
         s.run(root, wall_timeout=90)
         info['preemptions'] = s.npreempt
         return s, info
@@ -478,10 +493,19 @@ class World:
         else:
             need = max(first_round_end or [t0])
             deadline_ok = t_ready >= min(need, t0 + 30) - 1e-3
+        for m in scen['mods']:
+            if m.get('own_start') and not (m.get('fail') or False):
+                grant, takes = m['own_start']
+                r.count('own_start_events_checked')
+                st = [e[1] for e in LOG if e[2] == m['name'] and e[3] == 'start']
+                if st and t_ready < st[0] + min(grant, takes) - 1e-3:
+                    r.violation('C15/ready-before-granted-start-time', f'{m["name"]} was granted {grant} s for its start-up work taking {takes} s, ready was reported '
+                                f'{t_ready - st[0]:.3f} s after its start', case)
+                    return
         if not deadline_ok:
             r.violation('C15/ready-before-first-poll-round', f'ready after {t_ready - t0:.3f} s, first rounds end at {[None if t is None else round(t - t0, 3) for t in first_round_end]}', case)
             return
-        if t_ready > t0 + 30 + 55:
+        if t_ready > t0 + 30 + 55 + max([m['own_start'][0] for m in scen['mods'] if m.get('own_start')] or [0]):
             r.violation('C15/ready-later-than-start-timeout', f'ready after {t_ready - t0:.3f} s', case)
             return
         # ---- shutdown
